@@ -157,7 +157,7 @@ func lintRun(cmd *cobra.Command, args []string) error {
 					perm = fileInfo.Mode()
 				}
 
-				if err := os.WriteFile(fileResult.Filename, []byte(fixed), perm); err != nil {
+				if err := writeFileAtomic(fileResult.Filename, []byte(fixed), perm); err != nil {
 					fmt.Fprintf(cmd.ErrOrStderr(), "Error writing %s: %v\n", fileResult.Filename, err)
 					continue
 				}
